@@ -82,6 +82,15 @@ CLASSIFIERS["sk_sgd_warm"] = (_sk(lambda: SGDClassifier(loss="log_loss", warm_st
 CLASSIFIERS["sk_rf_warm"] = (_sk(lambda: RandomForestClassifier(n_estimators=3, warm_start=True, random_state=0)), False, True)
 
 
+@_c("mixture_sim_cov")
+def mixture_sim_cov(classes, ml, cm, seed, **kw):
+    # similarity mode with the other covariance parametrisations of the Gaussian mixture
+    ct = ["diag", "tied", "spherical"][seed % 3]
+    mm = GaussianMixture(n_components=2, covariance_type=ct, reg_covar=1e-2, random_state=0)
+    return MixtureModelClassifier(mixture_model=mm, weight_mode="similarities", classes=classes, missing_label=ml,
+                                  cost_matrix=cm, random_state=seed, **kw)
+
+
 @_c("sliding")
 def sliding(classes, ml, cm, seed, **kw):
     inner = SklearnClassifier(GaussianNB(var_smoothing=1e-3), classes=classes, missing_label=ml, random_state=0)
